@@ -21,19 +21,21 @@ Counts(line, ms) ==
   [p \in 0..Len(line) |->
      Cardinality({i \in 1..Len(ms) : ms[i][1] = p}) - Cardinality({i \in 1..Len(ms) : ms[i][2] = p})]
 
-\* walk over positions 0..len; emits segments <<from, to, coloured>> exactly as the writes do
-RECURSIVE Walk(_, _, _, _, _, _)
+\* walk over positions 0..len; emits segments <<from, to, coloured>> exactly as the writes do.
+\* One loop iteration at position pos on w = [depth, prev, acc]:
+WalkStep(cnt, w, pos) ==
+  LET nd == w.depth + cnt[pos] IN
+  IF w.depth = 0 /\ nd # 0 THEN [depth |-> nd, prev |-> pos, acc |-> Append(w.acc, <<w.prev, pos, FALSE>>)]
+  ELSE IF w.depth # 0 /\ nd = 0 THEN [depth |-> nd, prev |-> pos, acc |-> Append(w.acc, <<w.prev, pos, TRUE>>)]
+  ELSE [w EXCEPT !.depth = nd]
 Walk(cnt, n, pos, depth, prev, acc) ==
-  IF pos > n THEN Append(acc, <<prev, n, FALSE>>)           \* reset; writeln(&line[prev_pos..])
-  ELSE LET nd == depth + cnt[pos] IN
-       IF depth = 0 /\ nd # 0 THEN Walk(cnt, n, pos + 1, nd, pos, Append(acc, <<prev, pos, FALSE>>))
-       ELSE IF depth # 0 /\ nd = 0 THEN Walk(cnt, n, pos + 1, nd, pos, Append(acc, <<prev, pos, TRUE>>))
-       ELSE Walk(cnt, n, pos + 1, nd, prev, acc)
+  LET w == IterRange(LAMBDA x, p : WalkStep(cnt, x, p), [depth |-> depth, prev |-> prev, acc |-> acc], pos, n)
+  IN Append(w.acc, <<w.prev, n, FALSE>>)                \* reset; writeln(&line[prev_pos..])
 
 \* per-byte highlight flags produced by the machine
 Highlight(line, ms) ==
   LET segs == Walk(Counts(line, ms), Len(line), 0, 0, 0, <<>>) IN
-  [b \in 1..Len(line) |->
+  <<>> \o [b \in 1..Len(line) |->
      \E k \in 1..Len(segs) : segs[k][3] /\ segs[k][1] < b /\ b <= segs[k][2]]
 
 \* the text written is the concatenation of the segments: it must be the line itself
